@@ -27,14 +27,14 @@ CHECKS_FOR = {'C01-B': ['C01', 'C03'], 'C02-B': ['C02', 'C03'],
               'C09-G': ['C09', 'C16'], 'C09-H': ['C09', 'C04'],
               'C10-H': ['C10', 'C16', 'C17'], 'C03-H': ['C03', 'C17'],
               # round 5
-              'C01-I': ['C01', 'C12'], 'C01-J': ['C01', 'C11', 'C04'],
+              'C01-I': ['C01', 'C12'], 'C01-J': ['C01', 'C11'],
               'C02-I': ['C02', 'C07'], 'C02-J': ['C02', 'C01'],
               'C03-I': ['C03', 'C12'], 'C04-I': ['C04', 'C03'],
               'C04-J': ['C04', 'C12'], 'C05-I': ['C05', 'C13'],
-              'C05-J': ['C05', 'C13'], 'C08-I': ['C08', 'C04'],
+              'C05-J': ['C05'], 'C08-I': ['C08', 'C16'],
               'C08-J': ['C08', 'C17'], 'C09-I': ['C09', 'C16'],
               'C09-J': ['C09', 'C17'], 'C11-I': ['C11', 'C15'],
-              'C11-J': ['C11', 'C15'], 'C12-J': ['C12', 'C01'],
+              'C11-J': ['C11'], 'C12-J': ['C12'],
               'C13-I': ['C13', 'C04'], 'C15-I': ['C15', 'C07'],
               'C15-J': ['C15', 'C16'], 'C17-J': ['C17', 'C16'],
               'C18-I': ['C18', 'C09'], 'C18-J': ['C18', 'C09']}
